@@ -256,6 +256,10 @@ def c09(run):
     trace_stage(run, "sbf-tables", "supply",
                 nontrivial=lambda e: e["in"]["supply"].get("Q", 1) < e["in"]["supply"].get("P", 1),
                 keyfn=lambda e: (e["op"], e["in"]["supply"]))
+    # R3: the trait's default service_time as a machine (start at the demand, jump ahead by the missing service) returns the
+    # least sufficient window for every 1-Lipschitz supply of a small family and terminates; the runs the implementation
+    # really makes (op inverse_trace of the stage above: a supply that logs what it is asked) are runs of that machine
+    mc_stage(run, "default-inverse-machine", "MCDefaultInverse.tla", "MCDefaultInverse.cfg", workers=4)
     # unbounded, symbolic: the closed form is 0 at 0 / monotone / 1-Lipschitz, the library's arithmetic (transcribed) equals it,
     # the specialised service_time formulas are its exact inverse, deadline = period and budget = period degenerate as stated
     apalache_stage(run, "unbounded-obligations", "SupplyProofs.tla", ["Shape", "LibAgrees", "Equivalences", "Inverse"])
